@@ -4,6 +4,7 @@
 #define VF_HAVE_SETUP
 #include "common/framework.hpp"
 #include "common/zoo.hpp"
+#include "common/libcrng.hpp"
 
 using T = double;
 using namespace vz;
@@ -191,5 +192,10 @@ void vf_run_case(vf::Ctx& ctx, long idx)
     const int f = fams[(size_t) (idx % (long) fams.size())];
     // half of the cases from the hostile domain: bitwise determinism does not depend on conditioning
     Data<T> d = make_data<T>(ctx.rng, f, ctx.thorough ? 60 : 40, ctx.rng.coin(0.4));
+    const long libc_rng_before = g_libc_rng_calls.load();
     with_family<T>(d, [&](auto fac) { run_case(ctx, fac); });
+    // "a function of (operator, nev, ncv, v, args) alone": not of the C library's process-wide generator either (interposed, see common/libcrng.hpp)
+    if (g_libc_rng_calls.load() != libc_rng_before)
+        ctx.violation("library-drew-from-the-process-wide-C-generator", vf::J().kv("calls", g_libc_rng_calls.load() - libc_rng_before).kv("family", FAMILY[f]).str());
+    ctx.count("libc_rng_monitor_checks");
 }
